@@ -58,7 +58,15 @@ class C05(Property):
 
     def searches(self, ctx):
         n = 3200 if ctx.tier == 'quick' else 40000
-        return [('metadata', file_specs(profile()), n // ctx.nshards)]
+        multi = profile()
+        multi.max_lfs = 3
+        multi.interleave = True
+        multi.lf_distinct_sets = False      # logical files may use the same (default) set names
+        multi.max_meta = 4
+        multi.long_text = 2000
+        from hypothesis import strategies as st
+        return [('metadata', st.one_of(file_specs(profile()), file_specs(profile()), file_specs(profile()),
+                                       file_specs(multi)), n // ctx.nshards)]
 
     def run(self, spec, ctx):
         r, dec, ferr = specrun.write_and_decode(spec, ctx)
